@@ -44,6 +44,7 @@ type c20Case struct {
 	Node     string   `json:"node,omitempty"`
 	Backend  string   `json:"backend"`
 	Reversed bool     `json:"store_lists_nodes_in_reverse_order,omitempty"`
+	Cycle    *c20cCase `json:"cycle_case,omitempty"` // second part (c20b_cycles.go)
 }
 
 type lockEvent struct {
@@ -272,6 +273,15 @@ func c20Explore(t *testing.T, c *vcore.Ctx) {
 	}
 	c.SetRule("operations {create, capacity, remove, dissociate, control, send, replace, realloc, set-node, remove-node, remove-pod, node-resource, pod-resource, and the background remap they trigger} over pods p1{a,c}, p2{b} with one workload per node; include lists = every sequence over {a,b,c} up to length 2 (thorough 3) incl. repeats and nodes of another pod, exclude list, whole pod, all pods (listings also with the store returning the nodes in reverse order: the Store interface promises none); workload id lists = every sequence over the 3 workloads up to the same length; both store backends; non-trivial = cases in which some goroutine requested a lock while holding another")
 	c.Assume("the locked callback runs on the goroutine that acquired the lock (true for withNodesLocked / withWorkloadsLocked), so per-goroutine tracking is exact")
+	if c.Replay != nil {
+		var cc c20Case
+		if jsonUnmarshal(c.Replay, &cc) == nil && cc.Cycle != nil {
+			c20Cycles(t, c, cc.Cycle)
+			return
+		}
+	} else {
+		defer c20Cycles(t, c, nil)
+	}
 	backends := []string{"etcd", "redis"}
 	for _, be := range backends {
 		b := world.NewBackend(dir, be == "redis")
